@@ -25,6 +25,60 @@ type Prov struct {
 	maxDepth int
 	local    bool // do not resolve parameters through call sites
 	callers  map[*ssa.Function][]*ssa.Call
+
+	// InlinePure renders the results of straight-line expression helpers
+	// (one basic block, no stores, no calls other than to such helpers) as the
+	// helper's return expressions with its parameters replaced by the
+	// arguments, so that extracting a formula into a helper does not change
+	// its provenance.
+	InlinePure bool
+	bind       []map[*ssa.Parameter]string
+}
+
+// pureReturn returns the Return of a straight-line expression helper, or nil.
+func (p *Prov) pureReturn(fn *ssa.Function) *ssa.Return {
+	if fn == nil || len(fn.Blocks) != 1 || len(p.bind) > 3 {
+		return nil
+	}
+	var ret *ssa.Return
+	for _, in := range fn.Blocks[0].Instrs {
+		switch t := in.(type) {
+		case *ssa.BinOp, *ssa.Convert, *ssa.ChangeType, *ssa.FieldAddr, *ssa.Field, *ssa.IndexAddr, *ssa.Index, *ssa.Extract, *ssa.DebugRef, *ssa.Slice:
+		case *ssa.UnOp:
+			if t.Op == token.ARROW {
+				return nil
+			}
+		case *ssa.Call:
+			if cal := t.Call.StaticCallee(); cal == nil || cal == fn || p.pureReturn(cal) == nil {
+				return nil
+			}
+		case *ssa.Return:
+			ret = t
+		default:
+			return nil
+		}
+	}
+	return ret
+}
+
+// inlined renders result idx of a call to a pure helper, or "".
+func (p *Prov) inlined(call *ssa.Call, idx, depth int, seen map[ssa.Value]bool) string {
+	if !p.InlinePure {
+		return ""
+	}
+	fn := call.Call.StaticCallee()
+	ret := p.pureReturn(fn)
+	if ret == nil || idx >= len(ret.Results) || len(fn.Params) != len(call.Call.Args) {
+		return ""
+	}
+	b := map[*ssa.Parameter]string{}
+	for i, prm := range fn.Params {
+		b[prm] = p.of(call.Call.Args[i], depth, seen)
+	}
+	p.bind = append(p.bind, b)
+	s := p.of(ret.Results[idx], depth+1, map[ssa.Value]bool{})
+	p.bind = p.bind[:len(p.bind)-1]
+	return s
 }
 
 func NewProv(c *Ctx) *Prov {
@@ -99,6 +153,11 @@ func (p *Prov) of(v ssa.Value, depth int, seen map[ssa.Value]bool) string {
 		}
 		return v.Value.ExactString()
 	case *ssa.Parameter:
+		if n := len(p.bind); n > 0 {
+			if r, ok := p.bind[n-1][v]; ok {
+				return r
+			}
+		}
 		fn := v.Parent()
 		idx := -1
 		for i, q := range fn.Params {
@@ -234,6 +293,11 @@ func (p *Prov) of(v ssa.Value, depth int, seen map[ssa.Value]bool) string {
 		return base + "." + f.Name()
 	case *ssa.Call:
 		cc := v.Common()
+		if !cc.IsInvoke() && cc.StaticCallee() != nil && cc.StaticCallee().Signature.Results().Len() == 1 {
+			if r := p.inlined(v, 0, depth, seen); r != "" {
+				return r
+			}
+		}
 		if cc.IsInvoke() {
 			args := p.args(cc.Args, depth, seen)
 			return p.of(cc.Value, depth, seen) + "." + cc.Method.Name() + "(" + args + ")"
@@ -255,6 +319,11 @@ func (p *Prov) of(v ssa.Value, depth int, seen map[ssa.Value]bool) string {
 	case *ssa.TypeAssert:
 		return p.of(v.X, depth, seen)
 	case *ssa.Extract:
+		if call, ok := v.Tuple.(*ssa.Call); ok && !call.Call.IsInvoke() && call.Call.StaticCallee() != nil {
+			if r := p.inlined(call, v.Index, depth, seen); r != "" {
+				return r
+			}
+		}
 		// (value, ok) forms: keep the tuple provenance, mark the index
 		s := p.of(v.Tuple, depth, seen)
 		if v.Index == 0 {
@@ -371,6 +440,30 @@ func (p *Prov) of(v ssa.Value, depth int, seen map[ssa.Value]bool) string {
 	case *ssa.MakeMap:
 		return "make(map)"
 	case *ssa.MakeSlice:
+		// a fresh slice whose only writer is one whole-slice copy(dst, src) is a
+		// defensive copy of src: it carries src's provenance
+		if refs := v.Referrers(); refs != nil {
+			var src ssa.Value
+			writers := 0
+			for _, r := range *refs {
+				switch t := r.(type) {
+				case *ssa.Call:
+					if b, ok := t.Call.Value.(*ssa.Builtin); ok && b.Name() == "copy" && len(t.Call.Args) == 2 && t.Call.Args[0] == ssa.Value(v) {
+						src = t.Call.Args[1]
+						writers++
+					}
+				case *ssa.IndexAddr, *ssa.Slice:
+					writers += 2 // element writes or partial views: not a plain copy
+				}
+			}
+			if src != nil && writers == 1 {
+				if ln, ok := v.Len.(*ssa.Call); ok {
+					if b, ok := ln.Call.Value.(*ssa.Builtin); ok && b.Name() == "len" && p.of(ln.Call.Args[0], depth, seen) == p.of(src, depth, seen) {
+						return p.of(src, depth, seen)
+					}
+				}
+			}
+		}
 		return "make(slice)"
 	case *ssa.MakeChan:
 		return "make(chan)"
